@@ -650,4 +650,103 @@ Section Proofs.
 
   Lemma equiv_refl : forall w : world, sw_equiv (absW w) (absW w).
   Proof. intros w. split; [|split]; auto. Qed.
+
+  (* ------------------------------------------------------------------ frame: other Files are untouched *)
+  Definition target (stack : list nat) (o : op B) : option nat :=
+    match o with
+    | ONew _ i | ONewOpen _ i _ _ | OOpen _ i _ _ | OClose _ i | ODel _ i | OWith _ i
+    | ORead _ i _ | OWrite _ i _ | OSeek _ i _ _ | OTell _ i | OEof _ i | OFlush _ i
+    | OPrint _ i _ | OScan _ i => Some i
+    | OExit _ => match stack with [] => None | i :: _ => Some i end
+    end.
+
+  Ltac frame_crush :=
+    repeat (simpl in *; unfold s_set, upd in *;
+            match goal with
+            | H : Some _ = Some _ |- _ => inversion H; subst; clear H
+            | H : ?a <> ?a |- _ => contradiction
+            | H : Some ?a <> Some ?b |- context [Nat.eqb ?b ?a] => destruct (Nat.eqb_spec b a); [subst; contradiction|]
+            | |- context [Nat.eqb ?a ?b] => destruct (Nat.eqb_spec a b); subst
+            | |- context [match ?x with _ => _ end] => destruct x eqn:?
+            | _ => congruence
+            end).
+
+  Lemma s_close_frame : forall (a : sworld) i so j,
+    j <> i -> sw_objs B (fst (s_close B close_fails a i so)) j = sw_objs B a j.
+  Proof. intros a i so j Hj. unfold s_close. frame_crush. Qed.
+
+  Lemma s_open_frame : forall (a : sworld) i p m j,
+    j <> i -> sw_objs B (fst (s_open B creatable a i p m)) j = sw_objs B a j.
+  Proof. intros a i p m j Hj. unfold s_open. frame_crush. Qed.
+
+  Lemma s_reopen_frame : forall (a : sworld) i p m j,
+    j <> i -> sw_objs B (fst (s_reopen B creatable close_fails a i p m)) j = sw_objs B a j.
+  Proof.
+    intros a i p m j Hj. unfold s_reopen.
+    destruct (sw_objs B a i) as [| |s0] eqn:E.
+    - reflexivity.
+    - apply s_open_frame; auto.
+    - pose proof (s_close_frame a i (SOpen s0) j Hj) as Hc.
+      destruct (s_close B close_fails a i (SOpen s0)) as [a1 o1]. simpl in Hc.
+      destruct o1; simpl; auto.
+      rewrite <- Hc. apply s_open_frame; auto.
+  Qed.
+
+  Lemma s_on_open_frame : forall (a : sworld) i k j,
+    (forall s, sw_objs B (fst (k s)) j = sw_objs B a j) ->
+    sw_objs B (fst (s_on_open B a i k)) j = sw_objs B a j.
+  Proof. intros a i k j Hk. unfold s_on_open. destruct (sw_objs B a i); simpl; auto. Qed.
+
+  Lemma spec_frame : forall (a : sworld) o j,
+    target (sw_stack B a) o <> Some j -> sw_objs B (fst (sstep a o)) j = sw_objs B a j.
+  Proof.
+    intros a o j Ht.
+    destruct o; unfold target in Ht; cbn [spec_step];
+      try (assert (Hj : j <> i) by congruence).
+    - frame_crush.
+    - destruct (sw_objs B a i) eqn:E; simpl; auto.
+      pose proof (s_open_frame (s_set B a i SClosed) i p m j Hj) as Ho.
+      destruct (s_open B creatable (s_set B a i SClosed) i p m) as [a1 o1]. simpl in Ho.
+      assert (Hs : sw_objs B (s_set B a i SClosed) j = sw_objs B a j)
+        by (simpl; unfold upd; destruct (Nat.eqb_spec j i); congruence).
+      destruct o1; simpl; try (rewrite Ho; exact Hs).
+      all: unfold upd; destruct (Nat.eqb_spec j i); try congruence; rewrite Ho; exact Hs.
+    - apply s_reopen_frame; auto.
+    - apply s_close_frame; auto.
+    - destruct (existsb (Nat.eqb i) (sw_stack B a)); [reflexivity|].
+      destruct (sw_objs B a i) as [| |s0] eqn:E.
+      + reflexivity.
+      + simpl. unfold upd. destruct (Nat.eqb_spec j i); congruence.
+      + pose proof (s_close_frame a i (SOpen s0) j Hj) as Hc.
+        destruct (s_close B close_fails a i (SOpen s0)) as [a1 o1]. simpl in Hc.
+        destruct o1; simpl; auto. unfold upd. destruct (Nat.eqb_spec j i); congruence.
+    - frame_crush.
+    - destruct (sw_stack B a) as [|i r] eqn:E; simpl; auto.
+      assert (Hj : j <> i) by congruence.
+      apply (s_close_frame (mkSW B (sw_fs B a) (sw_objs B a) r) i _ j Hj).
+    - apply s_on_open_frame. intros s. frame_crush.
+    - apply s_on_open_frame. intros s. frame_crush.
+    - apply s_on_open_frame. intros s. frame_crush.
+    - apply s_on_open_frame. intros s. frame_crush.
+    - apply s_on_open_frame. intros s. frame_crush.
+    - apply s_on_open_frame. intros s. frame_crush.
+    - apply s_on_open_frame. intros s. frame_crush.
+    - apply s_on_open_frame. intros s. frame_crush.
+  Qed.
+
+  Theorem step_frame : forall (w : world) o j,
+    inv w -> target (w_stack B w) o <> Some j ->
+    abs_obj B (fst (stepF w o)) (w_objs B (fst (stepF w o)) j) = abs_obj B w (w_objs B w j).
+  Proof.
+    intros w o j Hinv Ht.
+    pose proof (step_refines w (absW w) o Hinv (equiv_refl w)) as Hr.
+    pose proof (spec_frame (absW w) o j Ht) as Hf.
+    destruct (stepF w o) as [w1 o1]. destruct (sstep (absW w) o) as [a1 o1'].
+    destruct Hr as [_ (_ & Hob & _)]. simpl in *.
+    rewrite <- (Hob j). exact Hf.
+  Qed.
+
+  Theorem reachable_inv : forall fs objs ops,
+    (forall i h, objs i <> FObj (Some h)) -> inv (fst (runF (w_init B fs objs) ops)).
+  Proof. intros fs objs ops Hn. apply run_inv. apply inv_init. exact Hn. Qed.
 End Proofs.
